@@ -124,7 +124,7 @@ def main():
     def replay_inv(vals, label):
         A = np.array([vals["a%d" % i] for i in range(9)], float).reshape(3, 3)
         L = creplay.lib(); import ctypes as C
-        B = A.copy(); L.inverse3x3.restype = C.c_int; r = L.inverse3x3(creplay.dptr(B))
+        B = A.copy(); L.verif_inverse3x3.restype = C.c_int; r = L.verif_inverse3x3(creplay.dptr(B))
         d = np.linalg.det(A)
         if abs(d) > 1e-9 * np.abs(A).max() ** 3:
             if r != 0 or not np.allclose(B @ A, np.eye(3), atol=1e-6): return True, "inverse3x3(%s) returned %d, out.A=%s" % (A.tolist(), r, (B @ A).tolist())
@@ -330,4 +330,4 @@ def lemma_magic(ck, irpath):
     ck.prove("L-ROUND (x-rne x)^2=(x-floor(x+1/2))^2", [], z3.Or(a == b, a == -b), 30000); ck.path("L-ROUND")
 
 if __name__ == "__main__":
-    main()
+    common.run_main(main)
